@@ -112,9 +112,9 @@ func (s c17Session) dopts() *packet.DecodeOptions {
 // expected content (plain values, independent of bio-rd's types)
 
 type c17Unknown struct {
-	code                        uint8
+	code                          uint8
 	optional, transitive, partial bool
-	value                       []byte
+	value                         []byte
 }
 
 type c17Want struct {
